@@ -74,4 +74,38 @@ theorem crash_remove_0 {l : List Group} {g : Group} {c : Chain} (r : Rep (l ++ [
   obtain ⟨c', h1, _, _, _, h5⟩ := rep_restart r c.mirror gen
   exact ⟨c.disk, c.mirror, c', by simp [removeB, hlast, hpget, removeWrites, applyPrefix, applyWrites], h1, h5⟩
 
+/-! ### crash points during the first start-up -/
+
+/-- A store that holds nothing, or only (a previous attempt's) JSON of the first genesis group. -/
+def FreshFor (g0 : Group) (d : Store) : Prop := ∀ k, k ≠ g0.id → sget d k = none
+
+/-- Start-up on such a store takes the genesis branch and ends representing the genesis list. -/
+theorem rep_init_fresh {g0 : Group} {rest : List Group} (ok : GenesisOK (g0 :: rest)) (d : Store)
+    (m : List Bytes) (hd : FreshFor g0 d) :
+    ∃ c, restart d m (g0 :: rest) = some (.alive c) ∧ Rep (stampFrom 0 (g0 :: rest)) c := by
+  have hid : IdOK g0.id := ok.idok g0 (by simp)
+  have hcur : sget d curKey = none := hd curKey (fun e => hid.ne_curKey e.symm)
+  refine ⟨(g0 :: rest).foldl save { disk := d, count := 0, last := g0, mirror := m }, by simp [restart, hcur], ?_⟩
+  have r0 := rep_save_first' d m g0 g0 hid ok.linked.1 hd
+  have hb := ok.bound
+  have := rep_foldl_save rest [stamped 0 g0] _ r0 ok.linked.2
+    (fun x hx => ok.idok x (by simp [hx]))
+    (by simpa [stamped] using ok.nodup)
+    (by simp at hb ⊢; omega)
+  simpa [stampFrom] using this
+
+/-- A first start-up cut after at most one write leaves such a store again. -/
+theorem firstBoot_le1 {g0 : Group} {rest : List Group} (ok : GenesisOK (g0 :: rest)) (d : Store)
+    (m : List Bytes) (hd : FreshFor g0 d) (k : Nat) (hk : k ≤ 1) :
+    ∃ d', firstBootB d m (g0 :: rest) k = some (.crashed d' m) ∧ FreshFor g0 d' := by
+  have hid : IdOK g0.id := ok.idok g0 (by simp)
+  have hcur : sget d curKey = none := hd curKey (fun e => hid.ne_curKey e.symm)
+  have hk' : k = 0 ∨ k = 1 := by omega
+  rcases hk' with rfl | rfl
+  · exact ⟨d, by simp [firstBootB, hcur, saveAllB, saveB, saveWrites, applyPrefix, applyWrites], hd⟩
+  · refine ⟨sput d g0.id (.grp (stamped 0 g0)),
+      by simp [firstBootB, hcur, saveAllB, saveB, saveWrites, applyPrefix, applyWrites, applyWrite], ?_⟩
+    intro k hk
+    rw [sget_sput]; simp [hk, hd k hk]
+
 end Rangers.Model.GroupChain
